@@ -57,6 +57,7 @@ FIXED = [
  ("fix: normalise TE when a response varies on it", ["C09"], "the coding-list normalisation was registered for \"TE\" but looked up as \"Te\": equivalent TE spellings selected different variants (C09 header pairs te-order, te-q1)"),
  ("fix: bind encrypted entries to the key they are stored under", ["C17"], "the file of one key put in place of another key's file passed authentication and Get returned the other key's value (C17 tamper kind replace-with-other-entry)"),
  ("fix: apply index updates, freshening and invalidation to what is stored now", ["C16"], "lookups made before the origin was contacted were written back afterwards: overlapping requests for two variants lost one index entry; a 304 landing after a POST (or a reload) wrote the invalidated / replaced entry back; a background 304 for one representation was merged onto another stored under the same id (C16 Mode S)"),
+ ("fix: list keys that are not valid UTF-8 byte-exactly in the maintenance API", ["C14"], "the list endpoint mangled keys that are not valid UTF-8 (U+FFFD): listed names that do not exist, distinct keys collapsing (C14 sequences through the API; the comparison used to go through the same lossy encoding)"),
 ]
 log = subprocess.run(["git", "-C", "/repo", "log", "--format=%h %s"], capture_output=True, text=True).stdout.splitlines()
 kf_path = os.path.join(ROOT, "known_findings.json")
